@@ -13,10 +13,12 @@ def main(ctx, args):
     n, steps = (640, 30) if ctx.quick else (8000, 40)
     return editor.ex_check(ctx, "C06", "lines", n, steps,
         "scripts = seeded pseudo-random prompt lines built from the model state (addresses in, at and out of range; marks; "
-        "patterns; registers; text blocks incl. empty and multi-byte); one evaluation = one prompt line compared; "
+        "patterns; registers; text blocks incl. empty and multi-byte; :r, :range!filter, :@m), plus exhaustively every sequence of two "
+        "(thorough: three) prompt lines over a list of 31 command lines from a three-line buffer (profile exh); one evaluation = one prompt line compared; "
         "non-trivial = a line with a command of this property that changed the text or printed something",
         ["marks on replaced lines and after undo are not constrained", "message wording is not compared",
-         "filters and file commands are covered elsewhere"])
+         "the filter of the scripts is tr a-z A-Z, run with the option writeany; file commands other than :r are covered by C01-C03, C20"],
+        exh=True)
 
 
 if __name__ == "__main__":
